@@ -225,7 +225,8 @@ PROPS['C06'] = dict(level=MC, rule=RULE_IDNA, assumptions=ASSUME_IDNA, models=[M
                                WI('punycode-labels', gen_idna.w_puny_labels, 600, 20000),
                                WI('punycode-plain-letters', gen_idna.w_puny_plain, 1500, 60000)])
 PROPS['C16'] = dict(level=MC, rule=RULE_IDNA, assumptions=ASSUME_IDNA, models=[M_IDNA, M_IDNA_WIDE],
-                    workloads=[WI('structured-equivalent-pairs', gen_idna.w_structured_eqv),
+                    workloads=[WI('structured-equivalent-pairs', gen_idna.w_structured_eqv), WI('ignored-and-folded-pairs', gen_idna.w_ignored_folded),
+                               WI('canonical-decomposables-sweep', gen_idna.w_decomposable_sweep),
                                WI('equivalent-pairs', gen_idna.w_equivalent, 4000, 150000),
                                WI('laws-arbitrary-code-points', gen_idna.w_laws, 4000, 150000),
                                W_IDNA_WPT, W_IDNA_VEC, W_IDNA_REPLAY, WI('fragment-structured', gen_idna.w_structured), WI('fragment-joiners-bidi', gen_idna.w_joiners),
@@ -263,7 +264,9 @@ PROPS['C02'] = dict(level='exploration', rule=RULE_BYTES, assumptions=ASSUME_BYT
                                dict(name='setter-histories-sanitized', gen=w_hist, n_quick=250, n_thorough=8000, configs=['asan']),
                                dict(name='grammar-parse-sanitized', gen=w_parse, n_quick=600, n_thorough=20000, configs=['asan']),
                                W_P_MIXED_SAN,
-                               WI('fragment-random-sanitized', gen_idna.w_frag_random, 800, 30000, configs=['asan'])])
+                               WI('fragment-random-sanitized', gen_idna.w_frag_random, 800, 30000, configs=['asan']),
+                               WI('canonical-decomposables-sweep-sanitized', gen_idna.w_decomposable_sweep, configs=['asan']),
+                               WI('structured-sanitized', gen_idna.w_structured, configs=['asan'])])
 
 
 # ---- C17: the C API is a faithful, crash-free wrapper (the C handle is driven in lockstep in every URL / params / idna trace)
